@@ -86,6 +86,7 @@ package fragmentation
 //@   requires len(*h) > 0
 //@   ensures implies(result2 != nil, result1.size == 0 && len(result1.views) == 0)
 //@   loop 1 invariant len(*h) >= 0 && len(*h) <= old(len(*h)) && arr(*h) == old(arr(*h)) && off(*h) == old(off(*h))
+//@   loop 1 decreases len(*h)
 //@   modifies *h, elems(*h), elemfamily(buffer.View)
 
 // process: a datagram is handed up (done) only when every hole has been deleted and the
